@@ -145,7 +145,7 @@ func (e *env) createTM(p clientPlan, idx int) {
 	}
 	cs := xibctmtypes.NewClientState(chainID, xibctmtypes.DefaultTrustLevel, kit.TrustingPeriod, kit.UnbondingPeriod, kit.MaxClockDrift,
 		clienttypes.NewHeight(p.Rev, p.H0), commitmenttypes.GetSDKSpecs(), commitmenttypes.MerklePrefix{KeyPrefix: []byte("xibc")}, 0)
-	kit.Must(cs.Validate(), "tm client state")
+	mustReachable(cs.Validate(), "tm client state")
 	var sim *tmsim.Chain
 	var cons *xibctmtypes.ConsensusState
 	if p.H0 <= math.MaxInt64 {
@@ -250,7 +250,7 @@ func (e *env) createBSC(p clientPlan) {
 	}
 	cs := &bsctypes.ClientState{Header: *pr, ChainId: bscChainID, Epoch: epoch, BlockInteval: 3, Validators: valBz,
 		ContractAddress: common.BytesToAddress([]byte("xibc-packet")).Bytes(), TrustingPeriod: 1_000_000}
-	kit.Must(cs.Validate(), "bsc client state")
+	mustReachable(cs.Validate(), "bsc client state")
 	cons := &bsctypes.ConsensusState{Timestamp: h0.Time, Height: pr.Height, Root: h0.Root.Bytes()}
 	kit.Must(cons.ValidateBasic(), "bsc consensus state")
 	kit.Must(e.ck().CreateClient(e.ctx, p.Name, cs, cons), "create BSC client "+p.String())
@@ -280,7 +280,7 @@ func (e *env) createETH(p clientPlan) {
 		Root: common.BytesToHash(rootFor("eth", p.H0)), Extra: []byte("c13")})
 	cs := ethsim.ClientState(g, 4, 1_000_000)
 	cs.Header.Height = clienttypes.NewHeight(p.Rev, p.H0)
-	kit.Must(cs.Validate(), "eth client state")
+	mustReachable(cs.Validate(), "eth client state")
 	cons := ethsim.ConsensusState(g)
 	cons.Height = cs.Header.Height
 	kit.Must(e.ck().CreateClient(e.ctx, p.Name, cs, cons), "create ETH client "+p.String())
@@ -314,8 +314,34 @@ func (e *env) createETH(p clientPlan) {
 func (e *env) createTSS(p clientPlan, tss sdk.AccAddress) {
 	// Vals doubles as the key generation of a TSS client (an upgrade rotates the key)
 	cs := &tsstypes.ClientState{TssAddress: tss.String(), Pubkey: []byte(fmt.Sprintf("pubkey-%s-%d", p.Name, p.Vals)), PartPubkeys: [][]byte{[]byte("p1"), []byte("p2")}}
-	kit.Must(cs.Validate(), "tss client state")
+	mustReachable(cs.Validate(), "tss client state")
 	kit.Must(e.ck().CreateClient(e.ctx, p.Name, cs, &tsstypes.ConsensusState{}), "create TSS client")
+}
+
+// unreachableState is raised (before anything is written) when the client state of a plan does not pass
+// the client type's own Validate: a CreateClient proposal with it is refused at submission, so the
+// state is not reachable and the generator must draw another one.
+type unreachableState struct{ err error }
+
+func mustReachable(err error, what string) {
+	if err != nil {
+		panic(unreachableState{fmt.Errorf("%s: %w", what, err)})
+	}
+}
+
+// tryCreate is create that reports an unreachable plan instead of failing.
+func (e *env) tryCreate(p clientPlan, idx int, tss sdk.AccAddress) (err error) {
+	defer func() {
+		if r := recover(); r != nil {
+			u, ok := r.(unreachableState)
+			if !ok {
+				panic(r)
+			}
+			err = u.err
+		}
+	}()
+	e.create(p, idx, tss)
+	return nil
 }
 
 func (e *env) create(p clientPlan, idx int, tss sdk.AccAddress) {
